@@ -4,8 +4,8 @@
     (result, exception class and list(items()) compared after EVERY call; reopen / unpickle events);
 (b) correspondence with the Coq model (filled in by the Coq side);
 (c) concurrency: deterministic schedules of 2-3 clients with their own Cache objects on one directory
-    (continuous presence S1, popitem accounting S2) and the replayed witness of the known finding
-    `lookup_overlapping_replace` (lock-free lookup overlapping the replacement of a file-backed value); S3: two clients whose
+    (continuous presence S1, popitem accounting S2) and, as a regression input, the schedule of the former finding C12-F1
+    (lock-free lookup overlapping the replacement of a file-backed value: the lookup must return the new value); S3: two clients whose
     value files share one sub-directory (a Disk with its own filename() layout), the removal by one placed at every point inside the
     other's store of a file-backed value, judged by linearizability against OrderedDict.
 Integers at the edges of the 32 / 53 / 63 / 64 / 128-bit representations are keys, values and components of tuple keys in every stream
@@ -26,13 +26,14 @@ ID = 'C12'
 TITLE = 'Index is a persistent insertion-ordered dictionary'
 COQ_PROP = 'C12'
 LEVEL = 'proof'
-TRANSLATE = ['persistent', 'disk']     # disk: Disk.store / Disk.fetch carry every Index value (text, bytes, pickle; inline and file)
+TRANSLATE = ['persistent', 'disk', 'sql']     # disk: Disk.store / Disk.fetch carry every Index value (text, bytes, pickle; inline and file);
+                                              # sql: the loop of Cache.get's lock-free path (Gen_Sql.get_retries_after_missing_file = IndexConc.repaired)
 TRUSTED = [
     'collections.OrderedDict is the oracle of the sequential monitor',
     'the abstract insertion-ordered cache of model/QCache.v stands for Cache get/set/del/pop/add/peekitem/iteration (C03)',
-    'the micro-step machine of model/IndexConc.v (reader = SELECT, open; writer = store, BEGIN, UPDATE, COMMIT, remove) '
-    'is validated by replaying its witness schedule on the implementation and by comparing its predicted lookup outcome with '
-    'the implementation on random schedules of one lookup against 1-2 replacements (inline and file-backed values)',
+    'the micro-step machine of model/IndexConc.v (reader = SELECT, open, and after a failed open SELECT again; writer = store, BEGIN, UPDATE, '
+    'COMMIT, remove) is validated by replaying the schedule that defeated the reader the code had before on the implementation and by comparing '
+    'its predicted lookup outcome with the implementation on random schedules of one lookup against 1-2 replacements (inline and file-backed values)',
     'tools/emit_persistent.py templates: every Deque/Index method body is matched against a source template, the holes are '
     'compiled to Gen_Persistent.v and pinned by proofs/PersistentBridge.v',
     'the key/value encoding of the correspondence (Python objects -> integers, equal objects equal ids)',
@@ -49,7 +50,8 @@ ASSUMPTIONS = [
     'values are compared with Python ==',
     'concurrent clause: atomicity of each single Index call (one transaction; popitem = peekitem + delete inside one transact '
     'block, pinned by the translator) is taken from C05/C06; proved here: the continuous-presence clause on the micro-step '
-    'machine for one key, one lookup, any number of replacing writers, every schedule',
+    'machine for one key, one lookup, any number of replacing writers, every schedule (safety: the lookup never reports the key absent; a schedule '
+    'that keeps replacing the value between the reader\'s steps can keep the lookup going)',
     'mappings compared with == / != have distinct keys (they are dicts)',
     'a constructor whose source of pairs fails: the reference for the directory\'s contents is OrderedDict().update(source), i.e. the pairs delivered '
     'before the failure (Index(directory, source) updates the index stored in the directory)',
@@ -66,7 +68,9 @@ ASSUMPTIONS = [
     'contended histories contain no unpickle events (they build a handle with the default 60 s SQLite timeout) and handle events are not contended',
 ]
 
-KNOWN_SIG = 'lookup_overlapping_replace'
+# signature under which the regression input of the former finding C12-F1 is reported if the defect returns (a raw monitor signature:
+# nothing is attributed to a known finding any more)
+REGRESSION_SIG = 'lookup_overlapping_replace'
 
 # ---------------------------------------------------------------------------
 # alphabets
@@ -1201,7 +1205,7 @@ def correspondence(ctx, res, histories, limit):
 
 def machine_schedule(log, nwriters, file_backed):
     """Scheduler log [(cid, 'kind:what')] -> schedule of the Coq machine (0 = reader, i+1 = writer i).
-    reader: SELECT, open-read.  writer: create (= store), BEGIN (every attempt), UPDATE, COMMIT, remove.  The machine gives
+    reader: SELECT, open-read (and again SELECT, open-read after an open that found the file gone).  writer: create (= store), BEGIN (every attempt), UPDATE, COMMIT, remove.  The machine gives
     every writer a store step and a remove step; for inline values the implementation has no such event, so the store step is
     inserted before the writer's first BEGIN (it changes nothing) and the remove steps are appended at the end."""
     out = []
@@ -1260,12 +1264,18 @@ def machine_correspondence(ctx, res, nruns):
         if o[0] == 'KeyError':
             want = 'Some None => true | _ => false'
             hits += 1
+            if hits <= 2:
+                # the key is only ever replaced: the property itself is violated (monitor verdict, independent of the machine)
+                res.violations.append(fw.Violation(
+                    'lookup_keyerror_inline' if not (file0 or any(wfile)) else 'lookup_keyerror_other',
+                    'lookup of a key that is present in every committed state raised KeyError while %d client(s) replaced its value' % nw,
+                    {'check': 'index_machine', 'file0': file0, 'writers_file_backed': wfile, 'schedule': sched_}))
         elif o[0] == 'ok' and repr(o[1]) in ids:
             want = 'Some (Some v) => v =? %d | _ => false' % ids[repr(o[1])]
         else:
             res.disagreements.append(fw.Violation('index_machine', 'unexpected lookup outcome %r' % (o,), {}, 'correspondence'))
             continue
-        term = 'match lookup_result (run (init %s 7 %s) %s) with %s end' % (
+        term = 'match lookup_result (run repaired (init %s 7 %s) %s) with %s end' % (
             fw.cbool(file0), fw.clist(['(%d, %s)' % (8 + i, fw.cbool(wfile[i])) for i in range(nw)]),
             '[' + '; '.join('%d%%nat' % c for c in ms) + ']', want)
         cases.append((term, {'check': 'index_machine', 'file0': file0, 'writers_file_backed': wfile, 'schedule': sched_,
@@ -1423,18 +1433,7 @@ def monitor_s1(init, programs, result, outcomes, inline):
             elif o[0] == 'KeyError':
                 mine = pos[cid][n0:n1]
                 evs = [log[g] for g in mine]
-                sig = 'lookup_keyerror_other'
-                sel = [g for g in mine if log[g][1] == 'sql:SELECT']
-                opn = [g for g in mine if log[g][1] == 'file:open-read']
-                if inline:
-                    sig = 'lookup_keyerror_inline'
-                elif sel and opn and op[0] == 'get':
-                    path = log[opn[-1]][2][0] if log[opn[-1]][2] else None
-                    for g in range(sel[0] + 1, opn[-1]):
-                        c, e, det = log[g]
-                        if c != cid and e == 'file:remove' and det and det[0] == path:
-                            sig = KNOWN_SIG
-                            break
+                sig = 'lookup_keyerror_inline' if inline else 'lookup_keyerror_other'
                 where['reader_events'] = [[c, e] for c, e, _ in evs]
                 if mine:
                     where['log_window'] = short_log(log, mine[0], mine[-1] + 1)
@@ -1806,7 +1805,6 @@ def switches(used):
 
 def concurrent(ctx, res, nsched, stats):
     rng = ctx.rng
-    skip_known = os.environ.get('VERIF_C12_SKIP_KNOWN') == '1'
     by = stats.setdefault('schedules_by_scenario', {})
     per_sig = {}
     for s in range(nsched):
@@ -1834,20 +1832,15 @@ def concurrent(ctx, res, nsched, stats):
         found = evaluate_conc(scenario, inline, init, programs, result, outcomes, final)
         seen = set()
         for sig, desc, extra in found:
-            if sig == KNOWN_SIG:
-                stats['known_hits'] = stats.get('known_hits', 0) + 1
-                if skip_known:
-                    continue
             if sig in seen or per_sig.get(sig, 0) >= 5:
                 continue
             seen.add(sig)
             per_sig[sig] = per_sig.get(sig, 0) + 1
             res.violations.append(fw.Violation(sig, desc, conc_case(scenario, inline, init, programs, result, extra)))
-    stats.setdefault('known_hits', 0)
     stats['schedules'] = stats.get('schedules', 0) + nsched
 
 
-# -- witness of the known finding
+# -- the schedule of the former finding C12-F1, kept as a regression input
 
 
 def witness_run(old, new, schedule):
@@ -1878,18 +1871,30 @@ def witness_shape(log):
     return bool(rem and opn and com) and com[0] < rem[0] < opn[0]
 
 
-def witness_lookup_overlapping_replace(runs=None):
-    """Finding D12: reader SELECT; writer store+BEGIN+UPDATE+COMMIT+remove; reader open -> KeyError although
-    the key was present throughout.  True iff the implementation still shows it."""
+def regression_lookup_overlapping_replace(res, runs=None):
+    """Former finding C12-F1 (D12): reader SELECT; writer store+BEGIN+UPDATE+COMMIT+remove; reader open.  The code used to raise
+    KeyError although the key was present throughout; the lookup must now look the row up again and return the NEW value.
+    Appends a violation (raw signature, no re-attribution) if it does not."""
     w = witness_run('x' * 100, 'y' * 100, WITNESS_SCHEDULE)
     shape = witness_shape(w['log'])
-    hit = shape and w['reader'][0] == 'KeyError' and w['writer'][0] == 'ok'
+    ok = w['reader'][0] == 'ok' and w['reader_value'] == 'y' * 100 and w['writer'][0] == 'ok'
+    selects = sum(1 for c, e in w['log'] if c == 0 and e == 'sql:SELECT')
     if runs is not None:
         w2 = dict(w)
         w2.pop('reader_value')
-        w2.update({'variant': 'overlap (file-backed)', 'shape_ok': shape, 'keyerror': bool(hit)})
+        w2.update({'variant': 'overlap (file-backed)', 'shape_ok': shape, 'reader_found_new_value': bool(ok), 'reader_selects': selects})
         runs.append(w2)
-    return bool(hit)
+    case = {'check': 'index_conc', 'scenario': 'S1', 'inline': False, 'init': [["'k'", repr('x' * 100)]],
+            'programs': [[['get', "'k'"]], [['set', "'k'", repr('y' * 100)]]], 'schedule': list(WITNESS_SCHEDULE)}
+    if not shape:
+        res.disagreements.append(fw.Violation(
+            'regression_schedule_shape', 'the schedule of the former finding C12-F1 no longer places the writer\'s removal between the reader\'s '
+            'SELECT and its open (the event sequence of a call changed?): %r' % (w['log'],), case, 'correspondence'))
+    elif not ok:
+        res.violations.append(fw.Violation(
+            REGRESSION_SIG, 'a lookup of a key that is present in every committed state, overlapping the replacement of its file-backed value '
+            '(reader SELECT; writer store, BEGIN, UPDATE, COMMIT, remove old file; reader open), gave %r instead of the new value' % (w['reader'],), case))
+    return bool(ok)
 
 
 def witness_variants(res, runs):
@@ -1940,7 +1945,6 @@ def finish_extra(res, stats):
         'schedules_by_scenario': stats.get('schedules_by_scenario', {}),
         'schedules_overflowed': stats.get('schedules_overflowed', 0),
         'schedule_steps': stats.get('schedule_steps', 0),
-        'known_hits': stats.get('known_hits', 0),
     })
     for k in ('histories_failing', 'histories_contended', 'failing_sources', 'contended_calls', 'contended_calls_that_waited',
               'contended_failed_begin_attempts', 'directed_int_histories', 'shared_dir_runs', 'shared_dir_programs', 'setdefault_race_runs'):
@@ -1958,7 +1962,8 @@ RULE = ('sequential: generated histories of 10-40 mapping operations (two stream
         'distinct = distinct (kind, op, arguments, contents before); non-trivial = contents before or '
         'after non-empty, or the call raises.  concurrent: 2-3 clients with their own Cache on one directory under random '
         'deterministic schedules of 50-300 steps (S1 continuous presence, S1 inline only, S2 popitem accounting); non-trivial = '
-        'at least two context switches; plus the replayed witness schedule of the known finding.  Failing sources (monitor only): histories '
+        'at least two context switches; plus, as a regression input, the schedule of the former finding C12-F1 (lookup overlapping the replacement of a '
+        'file-backed value: the new value must be found).  Failing sources (monitor only): histories '
         'of 4-12 calls on every kind in which update() -- and for Index(directory, source) / Index.fromcache(cache, source) the constructor -- gets a '
         'source of n = 0..5 pairs (new and present keys, inline and file-backed values) that fails after k = 0..n pairs: a generator that raises, a '
         'list whose element k is not a pair (7, None, 1-tuple, 3-tuple, \'abc\'), a keys()/[] object whose k-th lookup raises; followed by reads and '
@@ -1995,7 +2000,7 @@ def run(ctx):
     setdefault_race(ctx, res, stats, not ctx.quick)
     machine_correspondence(ctx, res, 40 if ctx.quick else 400)
     runs = []
-    res.witnessed[KNOWN_SIG] = witness_lookup_overlapping_replace(runs)
+    regression_lookup_overlapping_replace(res, runs)
     witness_variants(res, runs)
     res.extra['witness_runs'] = runs
     finish_extra(res, stats)
@@ -2013,7 +2018,7 @@ def search(ctx, broken):
     concurrent(ctx, res, nsched, stats)
     shared_dir_race(ctx, res, stats, True)
     setdefault_race(ctx, res, stats, True)
-    res.witnessed[KNOWN_SIG] = witness_lookup_overlapping_replace()
+    regression_lookup_overlapping_replace(res)
     return res
 
 
